@@ -22,6 +22,16 @@ import (
 
 var Cancelled = errors.New("transaction cancelled")
 
+// Connect transaction states - what the gateway waits for.
+type connectState int
+
+const (
+	awaitingAuth connectState = iota
+	awaitingWillTopic
+	awaitingWillMsg
+	awaitingConnack
+)
+
 type connectTransaction struct {
 	*transactions.TimedTransaction
 	handler       *handler1
@@ -29,6 +39,8 @@ type connectTransaction struct {
 	authEnabled   bool
 	mqConnect     *mqPkts.ConnectPacket
 	authenticated bool
+	// Accessed by the MQTT-SN receiver goroutine only.
+	state connectState
 }
 
 func newConnectTransaction(ctx context.Context, h *handler1, authEnabled bool, mqConnect *mqPkts.ConnectPacket) *connectTransaction {
@@ -69,20 +81,35 @@ func (t *connectTransaction) Start(ctx context.Context) error {
 
 	if t.authEnabled {
 		t.log.Debug("Waiting for AUTH packet.")
+		t.state = awaitingAuth
 		return nil
 	}
 
+	return t.proceedAfterAuth()
+}
+
+// Continue the transaction after the (optional) authentication step.
+func (t *connectTransaction) proceedAfterAuth() error {
 	if t.mqConnect.WillFlag {
 		// Continue with WILLTOPICREQ.
+		t.state = awaitingWillTopic
 		return t.handler.snSend(snPkts1.NewWillTopicReq())
 	}
 
+	// All information successfully gathered - send MQTT connect.
+	t.state = awaitingConnack
 	return t.handler.mqttSend(t.mqConnect)
 }
 
 func (t *connectTransaction) Auth(snPkt *snPkts1.Auth) error {
 	// Extract username and password from PLAIN data.
 	if snPkt.Method == snPkts1.AUTH_PLAIN {
+		// The credentials are taken from the client only when the
+		// authentication is enabled, and only once per CONNECT.
+		if !t.authEnabled || t.state != awaitingAuth {
+			t.log.Debug("Unexpected packet in %d: %v", t.state, snPkt)
+			return nil
+		}
 		user, password, err := snPkt.DecodePlain()
 		if err != nil {
 			t.Fail(err)
@@ -92,6 +119,7 @@ func (t *connectTransaction) Auth(snPkt *snPkts1.Auth) error {
 		t.mqConnect.Username = user
 		t.mqConnect.PasswordFlag = true
 		t.mqConnect.Password = password
+		t.authenticated = true
 	} else {
 		if err := t.SendConnack(snPkts1.RC_NOT_SUPPORTED); err != nil {
 			return err
@@ -101,16 +129,15 @@ func (t *connectTransaction) Auth(snPkt *snPkts1.Auth) error {
 		return err
 	}
 
-	if t.mqConnect.WillFlag {
-		// Continue with WILLTOPICREQ.
-		return t.handler.snSend(snPkts1.NewWillTopicReq())
-	}
-
-	// All information successfully gathered - send MQTT connect.
-	return t.handler.mqttSend(t.mqConnect)
+	return t.proceedAfterAuth()
 }
 
 func (t *connectTransaction) WillTopic(snWillTopic *snPkts1.WillTopic) error {
+	if t.state != awaitingWillTopic {
+		t.log.Debug("Unexpected packet in %d: %v", t.state, snWillTopic)
+		return nil
+	}
+
 	// QoS 3 (-1) is defined for PUBLISH only and cannot be translated to MQTT.
 	if snWillTopic.QOS > 2 {
 		if err := t.SendConnack(snPkts1.RC_NOT_SUPPORTED); err != nil {
@@ -126,10 +153,15 @@ func (t *connectTransaction) WillTopic(snWillTopic *snPkts1.WillTopic) error {
 	t.mqConnect.WillTopic = snWillTopic.WillTopic
 
 	// Continue with WILLMSGREQ.
+	t.state = awaitingWillMsg
 	return t.handler.snSend(snPkts1.NewWillMsgReq())
 }
 
 func (t *connectTransaction) WillMsg(snWillMsg *snPkts1.WillMsg) error {
+	if t.state != awaitingWillMsg {
+		t.log.Debug("Unexpected packet in %d: %v", t.state, snWillMsg)
+		return nil
+	}
 	t.mqConnect.WillMessage = snWillMsg.WillMsg
 
 	// An empty WILLTOPIC means "no will" (MQTT-SN specification v. 1.2, chapter
@@ -142,6 +174,7 @@ func (t *connectTransaction) WillMsg(snWillMsg *snPkts1.WillMsg) error {
 	}
 
 	// All information successfully gathered - send MQTT connect.
+	t.state = awaitingConnack
 	return t.handler.mqttSend(t.mqConnect)
 }
 
